@@ -180,7 +180,21 @@ static int scripted_accept(int fd, struct sockaddr *addr, socklen_t *alen, int f
 		errno = e[a];
 		return -1;
 	}
-	int nfd = use4 ? __real_accept4(fd, addr, alen, flags) : __real_accept(fd, addr, alen);
+	/* The loopback interface is shared with other processes: a stranger that connects to our
+	 * kernel-chosen port (a port scan, another test probing "closed" ports) is not part of the
+	 * history.  Such a connection is reset here and never shown to the library. */
+	int nfd, mine; socklen_t alen0 = *alen;
+	for (;;) {
+		*alen = alen0;
+		nfd = use4 ? __real_accept4(fd, addr, alen, flags) : __real_accept(fd, addr, alen);
+		if (nfd < 0) break;
+		mine = 0;
+		for (int i = 0; i < ncli; i++)
+			if (cli[i].used && !cli[i].handed && addr_eq((struct sockaddr_storage *)addr, *alen, &cli[i].local, cli[i].llen)) mine = 1;
+		if (mine) break;
+		MC_COUNT("foreign_connections_dropped");
+		hard_close(nfd);
+	}
 	if (nfd < 0) {
 		int e = errno;
 		if (e != EAGAIN && e != EWOULDBLOCK) mc_fail("harness:real-accept-error", "errno %d", e);
@@ -313,7 +327,9 @@ static int make_listen_socket(void)
 		if (listen(fd, 8) < 0) return -1;
 	} else {
 		struct sockaddr_in sin; memset(&sin, 0, sizeof sin); sin.sin_family = AF_INET; sin.sin_addr.s_addr = htonl(INADDR_LOOPBACK);
+		int one = 1;
 		fd = socket(AF_INET, SOCK_STREAM | SOCK_NONBLOCK, 0);
+		if (fd >= 0) setsockopt(fd, SOL_SOCKET, SO_REUSEADDR, &one, sizeof one);   /* ports with TIME_WAIT leftovers stay usable */
 		if (fd < 0 || bind(fd, (struct sockaddr *)&sin, sizeof sin) < 0) return -1;
 	}
 	return fd;
@@ -383,11 +399,10 @@ static void loop_step(void)
 	if (!quiescent) mc_fail("harness:no-quiescence", "listener still busy after %d iterations", MAXIT);
 	/* liveness: enabled + callback + no fault in force ⇒ the kernel queue has been drained */
 	if (quiescent && !M.freed && M.enabled && M.cb) {
-		struct pollfd p = { lfd, POLLIN, 0 };
 		int npend = 0;
-		for (int i = 0; i < ncli; i++) if (cli[i].used && !cli[i].handed) npend++;
+		for (int i = 0; i < ncli; i++) if (cli[i].used && !cli[i].handed) npend++;   /* connected (handshake complete) and not yet returned by a real accept */
 		MC_COUNT("oracle_queue_drained_checked");
-		if (poll(&p, 1, 0) != 0 || npend)
+		if (npend)
 			mc_fail("C44/pending-not-accepted", "listener enabled with a callback and idle, but %d connection(s) are still waiting in the accept queue", npend);
 	}
 	sticky = sticky_left = 0;
